@@ -16,6 +16,8 @@ import (
 )
 
 func (e *Exec) setupGlobals(pkgs []*packages.Package) {
+	e.inInit = true
+	defer func() { e.inInit = false }()
 	defer func() {
 		if x := recover(); x != nil {
 			if u, ok := x.(Unsupported); ok {
